@@ -45,6 +45,27 @@ def _message_formatting():
     APPLIED.append("alphabet_encoding.chr returns '?' for symbolic bytes (exception message text outside the claim)")
 
 
+def _repr_stubs():
+    """str()/repr() of encoded data with symbolic content (only used to build exception messages) is a placeholder"""
+    import bionumpy.encoded_array as ea
+    from .arrays import has_sym
+    for cls in (ea.EncodedArray, ea.EncodedRaggedArray):
+        for meth in ("__str__", "__repr__"):
+            orig = getattr(cls, meth)
+
+            def wrapped(self, _orig=orig):
+                d = self.raw() if hasattr(self, "raw") else None
+                try:
+                    d = d.ravel() if hasattr(d, "ravel") else d
+                except Exception:
+                    pass
+                if isinstance(d, SymArray) and has_sym(d):
+                    return "<symbolic text>"
+                return _orig(self)
+            setattr(cls, meth, wrapped)
+    APPLIED.append("str()/repr() of EncodedArray/EncodedRaggedArray with symbolic content returns a placeholder (exception message text outside the claim)")
+
+
 def _npsarray():
     import bionumpy.encoded_array as ea
     import npstructures.mixin
@@ -140,6 +161,7 @@ def apply():
     _convert_cached_arrays()
     _concretize_shapes()
     _message_formatting()
+    _repr_stubs()
     _npsarray()
     _text_entry()
     _reset_cached_tables()
